@@ -60,6 +60,8 @@ def cases(tier, rng):
         yield from _kernel_cases(ds, rng, "rand")
     for t in range(80 if tier == "quick" else 800):
         nr, nc = rng.randint(2, 8), rng.randint(2, 8)
+        if rng.random() < 0.25:      # rasters one or two pixels wide / high (round-6 seed: index steps of +-1 are not always east / west)
+            nr, nc = rng.choice([(rng.randint(2, 12), rng.randint(1, 2)), (rng.randint(1, 2), rng.randint(2, 12))])
         flw = nets.random_d8_raster(rng, nr, nc, p_nodata=rng.choice([0, 0.1, 0.3]))
         ds = nets.d8_decode(flw, nr, nc)
         if not nets.pits(ds):
@@ -127,7 +129,13 @@ def impl(case):
         st, v = call_impl(subgrid.segment_average, outs, arr, np.array(a[4], dtype=np.float64), w, mask, float(a[5][0]))
         return [_oq(v, a[5][0])] if st == "ok" else [[-2], [st]]
     if k == 1005:
-        st, v = call_impl(subgrid.segment_median, outs, arr, np.array(a[4], dtype=np.float64), mask, float(a[5][0]))
+        dat = np.array(a[4], dtype=np.float64)
+        nod = float(a[5][0])
+        if sum(a[4]) % 3 == 0:
+            # NaN as the nodata value (round-6 seed): missing cells hold NaN and are ignored like any other nodata value
+            dat = np.where(dat == nod, np.nan, dat)
+            nod = float("nan")
+        st, v = call_impl(subgrid.segment_median, outs, arr, dat, mask, nod)
         return [_oq(v, a[5][0])] if st == "ok" else [[-2], [st]]
     raise ValueError(k)
 
